@@ -237,7 +237,8 @@ func init() {
 		"'everything released' = at quiescence (no goroutine can run): client socket and both backend connections closed, the number of live goroutines is back to acceptor + harness, the engine's lock table is empty; then a fresh client is accepted and served",
 		"half-open TCP connections and slow clients are outside the claim",
 	}, stdAssumptions...),
-		Quick: []Job{{Pkg: "./zz_verif/orcah", Func: "ZZDisconnect", Reach: []string{"first-client-gone", "second-client-served"}, Bounds: "real server.ListenAndServe + DefaultServer.Loop + parsers + orcas + std handlers; 4 streams x every cut offset (0..len) x 4 orchestrator configurations x key in L1 or not"}}})
+		Quick: []Job{{Pkg: "./zz_verif/orcah", Func: "ZZDisconnect", Reach: []string{"first-client-gone", "second-client-served"}, Bounds: "real server.ListenAndServe + DefaultServer.Loop + parsers + orcas + std handlers; 4 streams x every cut offset (0..len) x 4 orchestrator configurations x key in L1 or not"},
+			{Pkg: "./zz_verif/orcah", Func: "ZZLateFirstByte", Name: "overlapping-clients", Reach: []string{"b-served", "a-served"}, Bounds: "two overlapping clients (the first silent until the second has come and gone): each one's departure closes exactly the backend connections opened for it (see C14)"}}})
 	reg(Check{ID: "C14", Level: "model_checking", Assumptions: append([]string{
 		"claimed part: (a) pool discipline -- an object has arbitrary contents from the moment it is returned to its sync.Pool (havoc on release and on reuse), and putting an object that is already pooled is reported; under that model the whole-stack, wire-level and chunked-handler harnesses still produce the reference replies; (b) one handler instance (own backend connections) per client connection in ListenAndServe, also when a client sends its first byte after a later client was accepted; (c) two connections without lock wrapper on different keys, every interleaving at backend calls: each sees the replies it would see alone",
 		"not claimed: data-race freedom in the sense of the Go memory model over real schedules of many connections (the engine has no happens-before model of the runtime); metrics internals (C18)",
